@@ -79,7 +79,7 @@ fn check_type<T: Jetty>(tname: &str, ctx: &Ctx, shard: usize, nshards: usize, ti
     let u = unit_roundoff::<T>();
     ndv_core::track::set_u(u);
     let draws = ctx.n(24, 1200);
-    let floor = if T::IS_F32 { 1e-43 } else { 1e-320 };
+    let floor = if T::IS_F32 { 3e-42 } else { 1e-320 }; // denormal spacing times the amplification by the other parts (<~ 2e3)
     let mut idx = 0u64;
     let order = T::shape((1, 1)).order();
     for (pi, (f, pname, x0)) in points(order, T::IS_F32).iter().enumerate() {
@@ -159,7 +159,7 @@ fn check_type<T: Jetty>(tname: &str, ctx: &Ctx, shard: usize, nshards: usize, ti
             };
             let m = tr_atan2(&Tr::exact(Jet::from_slots(&b, &ys), &b), &Tr::exact(Jet::from_slots(&b, &xs), &b), &b);
             let (want, tight) = m.slots(&b);
-            judge(&mut acc, K, u, &format!("atan2@{}", aname), "atan2", tname, &b, &got, &want, &tight, None, if T::IS_F32 { 1e-43 } else { 1e-320 }, &case);
+            judge(&mut acc, K, u, &format!("atan2@{}", aname), "atan2", tname, &b, &got, &want, &tight, None, if T::IS_F32 { 3e-42 } else { 1e-320 }, &case);
         }
     }
     acc
